@@ -3,7 +3,7 @@
   Mirrors structures_reuse.py (`Partial[...]`, `AllFieldsRequired[...]`, `Extend[...]`,
   `Omit[...]`, `Pick[...]`) and structures.py (`Structure.omit`, `Structure.pick`,
   `_init_class_dict`).  Every operator builds a fresh class dict from the source class —
-  `_fields` / `_ignore_none` if they are in the source's *own* `__dict__`, the source's Field
+  `_fields` from the source's own `__dict__`, `_ignore_none` as `getattr` sees it, the source's Field
   objects (shared, not copied), a new `_required` — and calls `type(name, (Structure,), dict)`,
   i.e. `defineClass` of Sem/Define.lean.
 -/
@@ -18,8 +18,8 @@ inductive DeriveOp where
   | pick (names : List String)
 deriving Repr, Inhabited
 
-/-- `_init_class_dict`: `_fields` (always in a Structure class's own dict) and `_ignore_none`
-    only when the source class itself wrote it -/
+/-- `_init_class_dict`: `_fields` (always in a Structure class's own dict); `_ignore_none` from
+    the class's own dict, else whatever `getattr` finds along the MRO (see `derivedSrc`) -/
 def initEntries (_c : ClassDef) : List (String × SrcEntry) := [("_fields", .attr .list)]
 
 def objEntries (fs : List (String × Member)) : List (String × SrcEntry) :=
@@ -36,16 +36,14 @@ def pickFields (all : List (String × Member)) : List String → List (String ×
 def derivedSrc (c : ClassDef) (newName : String) (fields : List (String × Member))
     (required : List String) : ClassSrc :=
   { name := newName, bases := ["Structure"], entries := initEntries c ++ objEntries fields,
-    required := some required, ignoreNone := c.ownIgnoreNone }
+    required := some required, ignoreNone := c.ignoreNoneAttr }
 
 /-- the class dict an operator assembles, or the exception it raises while doing so -/
 def deriveSrc (c : ClassDef) (newName : String) : DeriveOp → R ClassSrc
   | .partialOf => .ok (derivedSrc c newName c.allFields [])
   | .allRequired =>
-    -- `getattr(v, "_default")` on a Constant raises AttributeError
-    if c.allFields.any (fun p => p.2.isConst) then .error (.other "AttributeError")
-    else .ok (derivedSrc c newName c.allFields
-                ((c.allFields.filter fun p => !p.2.hasDefault).map (·.1)))
+    -- only Field objects without a default become required; Constants are carried over
+    .ok (derivedSrc c newName c.allFields ((c.allFields.filter fun p => p.2.needsValue).map (·.1)))
   | .extend => .ok (derivedSrc c newName c.allFields c.required)
   | .omit names =>
     if names.all (fun k => c.fieldNames.contains k) then
